@@ -68,6 +68,9 @@ def mechanism(f, exp, got_default, got_noinfer):
             i, tx, ty, same_repr = fd
             var = list(f['kinds'])[i] if i < len(f['kinds']) else '?'
             kind = f['kinds'].get(var, '?')
+            if tx == 'int' and ty == 'float' and got_noinfer == exp:
+                # a local that receives int and float values is inferred as C double: its int values come back as floats
+                return 'int-value-of-float-inferred-local-becomes-float', {'local': var, 'kind': kind}
             if tx != ty:
                 return 'result-type:%s->%s:%s-local:%s' % (tx, ty, kind, base), {'local': var}
             return 'result-value:%s:%s-local:%s' % (tx, kind, base), {'local': var}
@@ -84,9 +87,41 @@ def main(ck):
     mods = {}
     fmap = {}
     feat = {}
-    for mi in range(0, nfuncs, per_mod):
+    allfuncs = [infergen.gen_function(rng, 'iz%dz' % i) for i in range(nfuncs)]
+    # pre-screen: translate every function on its own under both configurations, so that one function the compiler
+    # rejects (or crashes on) does not take a whole module with it
+    pd = tree.subdir('prescreen')
+    jobs_d, jobs_n = [], []
+    for f in allfuncs:
+        p = os.path.join(pd, f['name'] + '.py')
+        with open(p, 'w') as fh:
+            fh.write(infergen.HEADER + f['src'])
+        jobs_d.append({'src': p, 'out': os.path.join(pd, f['name'] + '_d.c')})
+        jobs_n.append({'src': p, 'out': os.path.join(pd, f['name'] + '_n.c'), 'directives': {'infer_types': False}})
+    res_pd, _ = tree.translate(jobs_d, timeout=3600)
+    res_pn, _ = tree.translate(jobs_n, timeout=3600)
+    rejected_both = 0
+    good = []
+    for f, rd, rn in zip(allfuncs, res_pd, res_pn):
+        if rd['ok'] and rn['ok']:
+            good.append(f)
+            continue
+        if not rd['ok'] and not rn['ok']:
+            rejected_both += 1      # not an effect of type inference (statically detectable type errors etc.: C43's domain)
+            continue
+        which = 'default-inference' if not rd['ok'] else 'infer_types=False'
+        r = rd if not rd['ok'] else rn
+        kind = 'compiler-crash' if r.get('exc') or 'Traceback' in (r.get('errors') or '') or 'Compiler crash' in (r.get('errors') or '') \
+            else 'compile-error'
+        msg = [ln for ln in ((r.get('exc') or '') + (r.get('errors') or '')).splitlines() if ln.strip()][-1:]
+        ck.discrepancy('%s-rejects-program-that-compiles-otherwise:%s' % (which, kind),
+                       '%s: %s only with %s: %s' % (f['name'], kind, which, (msg or ['?'])[0][:200]),
+                       {'function_source': infergen.HEADER + f['src'], 'ext': '.py', 'rejected_with': which,
+                        'diagnostics': ((r.get('exc') or '') + (r.get('errors') or ''))[-1500:]})
+    ck.cov['prescreen'] = {'functions': nfuncs, 'compile_under_both': len(good), 'rejected_under_both': rejected_both}
+    for mi in range(0, len(good), per_mod):
         name = 'c40m%d' % (mi // per_mod)
-        funcs = [infergen.gen_function(rng, 'iz%dz' % (mi + i)) for i in range(min(per_mod, nfuncs - mi))]
+        funcs = good[mi:mi + per_mod]
         mods[name] = (infergen.HEADER + '\n\n'.join(f['src'] for f in funcs), funcs)
         for f in funcs:
             fmap[f['name']] = f
@@ -179,7 +214,7 @@ def main(ck):
                 ck.inconclusive_if(True, 'driver failed for %s/%s: %s' % (cfg, n, str(ft)[-300:]))
     # ---------------------------------------------------------------- reach
     funcs_with_c = {x[0].split('.')[-1] for x in inferred}
-    frac_funcs = len(funcs_with_c) / max(1, nfuncs)
+    frac_funcs = len(funcs_with_c) / max(1, len(good))
     frac_big = stats['beyond_2_63'] / max(1, stats['n'])
     ck.inconclusive_if(frac_funcs < 0.30, 'only %.1f%% of the functions have a C-inferred local' % (100 * frac_funcs))
     ck.inconclusive_if(frac_big < 0.10, 'only %.1f%% of the inputs drive a value beyond 2**63' % (100 * frac_big))
